@@ -174,6 +174,33 @@ pub fn search_positions(tier: Tier) -> Vec<Position> {
             }
         }
     }
+    // forced-move roots: exactly one (or two) legal moves - every pass consists of the
+    // previous-best probe alone, so expiry lands inside it
+    {
+        let mut forced = vec![];
+        for (i, p) in family_positions(Family::Three, 0).into_iter().enumerate() {
+            for q in [p.clone(), p.mirror()] {
+                if q.valid_root().is_ok() {
+                    let n = q.legal_moves().len();
+                    if n == 1 || (n == 2 && i % 5 == 0) {
+                        forced.push(q);
+                    }
+                }
+            }
+        }
+        let stride = (forced.len() / tier.pick(250, 2500)).max(1);
+        v.extend(forced.into_iter().step_by(stride));
+        for f in [
+            "4k3/pppp4/8/8/8/8/PPPP1nPP/R6K w - - 0 1",
+            "r1bqkbnr/pppppBpp/8/8/1n2P3/8/PPPP1PPP/RNBQK1NR b KQkq - 0 3",
+            "rnb1kbnr/pp1p1ppp/1pp1p3/8/5P1q/2N5/P1PPP1PP/R1BQKBNR w KQkq - 1 5",
+            "6k1/5ppp/8/8/8/8/r7/6K1 w - - 0 1",
+        ] {
+            let p = Position::from_fen(f).unwrap();
+            v.push(p.mirror());
+            v.push(p);
+        }
+    }
     // degenerate roots
     for f in ["7k/5Q2/6K1/8/8/8/8/8 b - - 0 1", "7k/6Q1/6K1/8/8/8/8/8 b - - 0 1", "4k3/8/8/8/8/8/8/4K2R w K - 99 60", "4k3/8/8/8/8/8/8/4K2R w K - 100 60", "k7/8/8/8/8/8/8/K7 w - - 0 1"] {
         let p = Position::from_fen(f).unwrap();
@@ -194,7 +221,33 @@ pub fn run_c11(args: &Args) -> i32 {
         positions = positions.into_iter().step_by(4).collect();
         cap = 1000;
     }
-    let res: Vec<(u64, u64, bool, Vec<(u64, Vec<Divergence>)>)> = positions.par_iter().map(|p| c11_sweep(p, cap, false, 3)).collect();
+    if std::env::var("VCHECK_TRACING").is_ok() {
+        // sub-run with a tracing subscriber installed (the CLI's -v and the WASM front end do that):
+        // the engine's log statements evaluate their arguments only then
+        use tracing_subscriber::fmt::MakeWriter;
+        struct Sink;
+        impl std::io::Write for Sink {
+            fn write(&mut self, b: &[u8]) -> std::io::Result<usize> {
+                Ok(b.len())
+            }
+            fn flush(&mut self) -> std::io::Result<()> {
+                Ok(())
+            }
+        }
+        struct MkSink;
+        impl<'a> MakeWriter<'a> for MkSink {
+            type Writer = Sink;
+            fn make_writer(&'a self) -> Sink {
+                Sink
+            }
+        }
+        let _ = tracing_subscriber::fmt().with_max_level(tracing::Level::DEBUG).with_writer(MkSink).try_init();
+        positions = positions.into_iter().step_by(6).collect();
+        cap = 250;
+    }
+    // positions with at most two legal moves have trivially cheap passes: sweep them over six passes
+    let res: Vec<(u64, u64, bool, Vec<(u64, Vec<Divergence>)>)> =
+        positions.par_iter().map(|p| if p.legal_moves().len() <= 2 { c11_sweep(p, cap.min(500), false, 8) } else { c11_sweep(p, cap, false, 3) }).collect();
     let mut runs = 0u64;
     let mut capped = 0u64;
     let mut no_pass = 0u64;
@@ -224,9 +277,44 @@ pub fn run_c11(args: &Args) -> i32 {
             report.record(d, || json!({"kind": "search", "fen": p.to_fen(), "k": k, "positional": true}));
         }
     }
+    // one Engine reused for unrelated positions (the CLI and the plugin keep one engine per game):
+    // a completed search of position A, then position B with every expiry point
+    let reuse_runs = if std::env::var("VCHECK_SUBRUN").is_err() { c11_engine_reuse(&positions, args.tier, &report) } else { 0 };
+    runs += reuse_runs;
     // through the plugin boundary
-    let (plugin_runs, plugin_positions) = crate::plugin::c11_through_plugin(&positions, args.tier, &report);
+    let (plugin_runs, plugin_positions) = if std::env::var("VCHECK_SUBRUN").is_err() { crate::plugin::c11_through_plugin(&positions, args.tier, &report) } else { (0, 0) };
     runs += plugin_runs;
+    // the same sweep (reduced) in a child process that has a tracing subscriber installed
+    let mut logging_runs = 0u64;
+    if std::env::var("VCHECK_SUBRUN").is_err() && !is_worker() {
+        let exe = std::env::current_exe().unwrap_or_else(|e| machinery_failure(&format!("current_exe: {e}")));
+        let out = std::process::Command::new(exe)
+            .args(["C11", "--tier", "quick"])
+            .env("VCHECK_SUBRUN", "1")
+            .env("VCHECK_TRACING", "1")
+            .output()
+            .unwrap_or_else(|e| machinery_failure(&format!("cannot start the logging sub-run: {e}")));
+        let text = String::from_utf8_lossy(&out.stdout);
+        let mut seen_cov = false;
+        for line in text.lines() {
+            if let Some(rest) = line.strip_prefix("SUBRUN-DIVERGENCE\t") {
+                let f: Vec<&str> = rest.splitn(3, '\t').collect();
+                report.record(&[Divergence::new(format!("with-logging-enabled:{}", f[0]), f.get(2).unwrap_or(&"").to_string())], || json!({"kind": "logging-subrun"}));
+            }
+            if let Some(rest) = line.strip_prefix("SUBRUN-COVERAGE ") {
+                seen_cov = true;
+                logging_runs = serde_json::from_str::<Value>(rest).ok().and_then(|v| v["evaluations"].as_u64()).unwrap_or(0);
+            }
+        }
+        if !seen_cov {
+            // the child died: with logging enabled the search crashed the process
+            report.record(
+                &[Divergence::new("with-logging-enabled:search-crashes-the-process", format!("the sub-run with a tracing subscriber ended with status {:?} and no coverage line; stderr tail: {}", out.status.code(), String::from_utf8_lossy(&out.stderr).lines().rev().take(2).collect::<Vec<_>>().join(" | ")))],
+                || json!({"kind": "logging-subrun"}),
+            );
+        }
+        runs += logging_runs;
+    }
     restore_panics();
     if with_pass == 0 {
         machinery_failure("C11: no position completed a pass: the sweep is vacuous");
@@ -245,12 +333,87 @@ pub fn run_c11(args: &Args) -> i32 {
             "positions_explored_up_to_cap_only": capped,
             "cap_k": cap, "largest_k_reached": kmax,
             "plugin_runs": plugin_runs, "plugin_positions": plugin_positions,
+            "engine_reuse_runs": reuse_runs, "runs_with_tracing_subscriber_installed": logging_runs,
             "exhaustive": capped == 0,
             "exhaustive_note": "every k in [0, K] where K is the first k completing 3 passes; positions counted under positions_explored_up_to_cap_only were explored for k <= cap only",
             "samples": [{"fen": positions[si].to_fen(), "k": sample_k, "returned": so.as_ref().map(|o| o.mv.map(|m| ref_mv(m).uci())), "passes_completed": so.as_ref().map(|o| if o.max_depth == SENTINEL { 0 } else { o.max_depth as u32 + 1 })}],
         }),
         &["the engine polls its timeout at fixed program points, so k ranges over every instant at which expiry can be noticed", "timeouts are monotone like a deadline (non-monotone answers are not injected)", "'a pass completed' is observed through the public Engine::max_depth field pre-loaded with a sentinel"],
     )
+}
+
+pub fn reuse_case(a: &Position, b: &Position, k: u64) -> Vec<Divergence> {
+    let (Ok(ba), Ok(bb)) = (parse_board(&a.to_fen()), parse_board(&b.to_fen())) else { return vec![] };
+    let legal_b = b.legal_moves();
+    let r = std::panic::catch_unwind(|| {
+        let mut engine = Engine::default();
+        let tf = ThreeFold::new();
+        let t1 = CountingTimeout::new(4000);
+        let _ = engine.search(&ba, &tf, &t1);
+        engine.max_depth = SENTINEL;
+        let t2 = CountingTimeout::new(k);
+        let (mv, _) = engine.search(&bb, &tf, &t2);
+        (mv, engine.max_depth, t2.polls.get())
+    });
+    match r {
+        Err(_) => vec![Divergence::new("search-panics:engine-reused", format!("{} then {} k={k}", a.to_fen(), b.to_fen()))],
+        Ok((mv, depth, polls)) => {
+            if let Some(m) = mv {
+                if !legal_b.contains(&ref_mv(m)) {
+                    return vec![Divergence::new("search-returns-illegal-move:engine-reused", format!("engine searched {} and then {} with expiry at poll {k}: returned {} which is not legal there", a.to_fen(), b.to_fen(), ref_mv(m).uci()))];
+                }
+            } else if !legal_b.is_empty() && (depth != SENTINEL || polls <= k) {
+                return vec![Divergence::new("search-returns-no-move:engine-reused", format!("{} then {} k={k}", a.to_fen(), b.to_fen()))];
+            }
+            vec![]
+        }
+    }
+}
+
+/// search A to completion of its first pass, then B with every expiry point k, on ONE engine
+fn c11_engine_reuse(positions: &[Position], tier: Tier, report: &Report) -> u64 {
+    // pairs: neighbours in the catalogue, plus pairs that share the square of a movable piece
+    let n = positions.len();
+    let stride = (n / tier.pick(120, 600)).max(1);
+    let mut pairs: Vec<(usize, usize)> = (0..n).step_by(stride).map(|i| (i, (i + 1) % n)).collect();
+    for f in [("6k1/5ppp/8/8/8/8/8/R3K3 w - - 0 1", "6k1/5ppp/8/8/8/8/P7/R3K3 w - - 0 1"), ("6k1/5ppp/8/8/8/8/8/3QK3 w - - 0 1", "6k1/5ppp/3p4/8/8/8/8/3QK3 w - - 0 1")] {
+        let _ = f;
+    }
+    let extra = [
+        ("6k1/5ppp/8/8/8/8/8/R3K3 w - - 0 1", "6k1/5ppp/8/8/8/8/P7/R3K3 w - - 0 1"),
+        ("6k1/5ppp/8/8/8/8/8/3QK3 w - - 0 1", "6k1/5ppp/3p4/8/3P4/8/8/3QK3 w - - 0 1"),
+        ("4k3/8/8/8/8/8/4P3/4K3 w - - 0 1", "4k3/8/8/8/8/4p3/4P3/4K3 w - - 0 1"),
+    ];
+    let mut all: Vec<(Position, Position)> = pairs.drain(..).map(|(a, b)| (positions[a].clone(), positions[b].clone())).collect();
+    for (a, b) in extra {
+        let (pa, pb) = (Position::from_fen(a).unwrap(), Position::from_fen(b).unwrap());
+        all.push((pa.mirror(), pb.mirror()));
+        all.push((pa, pb));
+    }
+    let cap = tier.pick(120u64, 600);
+    let res: Vec<(u64, Vec<(u64, Vec<Divergence>)>)> = all
+        .par_iter()
+        .map(|(a, b)| {
+            let mut bad = vec![];
+            let mut runs = 0;
+            for k in 0..=cap {
+                runs += 1;
+                let d = reuse_case(a, b, k);
+                if !d.is_empty() {
+                    bad.push((k, d));
+                }
+            }
+            (runs, bad)
+        })
+        .collect();
+    let mut runs = 0;
+    for ((a, b), (r, bad)) in all.iter().zip(res) {
+        runs += r;
+        for (k, d) in bad {
+            report.record(&d, || json!({"kind": "search-reuse", "first": a.to_fen(), "fen": b.to_fen(), "k": k}));
+        }
+    }
+    runs
 }
 
 // ------------------------------------------------------------------------------ C12
@@ -423,9 +586,205 @@ fn promo_mate_family() -> Vec<Position> {
     out
 }
 
+/// Mates delivered BY A CAPTURE that leaves only kings and minor pieces (the engine's
+/// insufficient-material shortcut runs after a capture and before mate detection): black king in
+/// the a8/h8 corner region, one black minor piece next to it, white king within distance 2, a white
+/// bishop or knight anywhere, a black pawn or minor piece anywhere as the victim.  Only members with
+/// a mate in one (reference) are kept.
+fn minor_capture_mate_family(stride: usize) -> Vec<Position> {
+    use refchess::Pc;
+    let corners: [u8; 6] = [56, 57, 48, 63, 62, 55];
+    let mut raw: Vec<Position> = vec![];
+    let mut i = 0usize;
+    for &bk in &corners {
+        let (bf, br) = ((bk % 8) as i8, (bk / 8) as i8);
+        for wk in 0..64u8 {
+            let (wf, wr) = ((wk % 8) as i8, (wk / 8) as i8);
+            let dist = (wf - bf).abs().max((wr - br).abs());
+            if !(2..=2).contains(&dist) {
+                continue;
+            }
+            for blocker_sq in 0..64u8 {
+                let (xf, xr) = ((blocker_sq % 8) as i8, (blocker_sq / 8) as i8);
+                if (xf - bf).abs().max((xr - br).abs()) != 1 || blocker_sq == wk {
+                    continue;
+                }
+                for blocker in [Pc::B, Pc::N] {
+                    for attacker in [Pc::B, Pc::N] {
+                        for a_sq in 0..64u8 {
+                            for v_sq in 0..64u8 {
+                                for victim in [Pc::P, Pc::N] {
+                                    if victim == Pc::P && (v_sq < 8 || v_sq >= 56) {
+                                        continue;
+                                    }
+                                    i += 1;
+                                    if i % stride != 0 {
+                                        continue;
+                                    }
+                                    let mut p = Position::empty();
+                                    p.turn = Col::W;
+                                    p.full = 1;
+                                    let mut ok = true;
+                                    for (s, c, pc) in [(bk, Col::B, Pc::K), (wk, Col::W, Pc::K), (blocker_sq, Col::B, blocker), (a_sq, Col::W, attacker), (v_sq, Col::B, victim)] {
+                                        if p.board[s as usize].is_some() {
+                                            ok = false;
+                                            break;
+                                        }
+                                        p.board[s as usize] = Some((c, pc));
+                                    }
+                                    if ok {
+                                        raw.push(p);
+                                    }
+                                }
+                            }
+                        }
+                    }
+                }
+            }
+        }
+    }
+    raw.into_par_iter()
+        .filter(|p| p.valid_root().is_ok() && p.mating_moves().iter().any(|m| p.board[m.to as usize].is_some()))
+        .collect()
+}
+
+/// Mates by promotion, in particular under-promotion: pawn on the 7th, black king within distance 2
+/// of the promotion square, two black men from {pawn, bishop, rook, knight} next to the black king,
+/// white king within distance 3.  Only members whose every mating move is a promotion are kept.
+fn promotion_only_mate_family(stride: usize) -> Vec<Position> {
+    use refchess::Pc;
+    let mut raw: Vec<Position> = vec![];
+    let mut i = 0usize;
+    for f in 0..8i8 {
+        let promo = refchess::sq(f, 7);
+        for bk in 0..64u8 {
+            let (bf, br) = ((bk % 8) as i8, (bk / 8) as i8);
+            if (bf - f).abs().max(7 - br) > 2 || bk == promo || br < 6 {
+                continue;
+            }
+            let adj: Vec<u8> = (0..64u8).filter(|s| { let (xf, xr) = ((*s % 8) as i8, (*s / 8) as i8); (xf - bf).abs().max((xr - br).abs()) == 1 && *s != refchess::sq(f, 6) }).collect();
+            for (ai, &a) in adj.iter().enumerate() {
+                for &b in adj.iter().skip(ai + 1) {
+                    for pa in [Pc::P, Pc::B, Pc::R, Pc::N] {
+                        for pb in [Pc::P, Pc::B, Pc::R, Pc::N] {
+                            for wk in 0..64u8 {
+                                let (wf, wr) = ((wk % 8) as i8, (wk / 8) as i8);
+                                if (wf - bf).abs().max((wr - br).abs()) > 3 {
+                                    continue;
+                                }
+                                i += 1;
+                                if i % stride != 0 {
+                                    continue;
+                                }
+                                let mut p = Position::empty();
+                                p.turn = Col::W;
+                                p.full = 1;
+                                let mut ok = true;
+                                for (s, c, pc) in [(refchess::sq(f, 6), Col::W, Pc::P), (bk, Col::B, Pc::K), (wk, Col::W, Pc::K), (a, Col::B, pa), (b, Col::B, pb)] {
+                                    if p.board[s as usize].is_some() || (pc == Pc::P && c == Col::B && (s / 8 == 7 || s / 8 == 0)) {
+                                        ok = false;
+                                        break;
+                                    }
+                                    p.board[s as usize] = Some((c, pc));
+                                }
+                                if ok {
+                                    raw.push(p);
+                                }
+                            }
+                        }
+                    }
+                }
+            }
+        }
+    }
+    raw.into_par_iter()
+        .filter(|p| {
+            if p.valid_root().is_err() {
+                return false;
+            }
+            let m = p.mating_moves();
+            !m.is_empty() && m.iter().all(|x| x.promo.is_some())
+        })
+        .collect()
+}
+
+/// Knight under-promotion mates: pawn on the 7th, black king on a square a knight on the promotion
+/// square would attack, two black men beside the king, one white helper (B/N/R) anywhere, white king
+/// parked in a far corner.  Kept when a knight promotion mates and the queen promotion to the same
+/// square does not.
+fn knight_promotion_mate_family(stride: usize) -> Vec<Position> {
+    use refchess::Pc;
+    let mut raw: Vec<Position> = vec![];
+    let mut i = 0usize;
+    for f in 0..8i8 {
+        for to_f in [f - 1, f, f + 1] {
+            if !(0..8).contains(&to_f) {
+                continue;
+            }
+            // squares a knight on (to_f, 7) attacks
+            for (df, dr) in [(1i8, -2i8), (-1, -2), (2, -1), (-2, -1)] {
+                let (bf, br) = (to_f + df, 7 + dr);
+                if !(0..8).contains(&bf) {
+                    continue;
+                }
+                let bk = refchess::sq(bf, br);
+                let adj: Vec<u8> = (0..64u8).filter(|s| { let (xf, xr) = ((*s % 8) as i8, (*s / 8) as i8); (xf - bf).abs().max((xr - br).abs()) == 1 && *s != refchess::sq(f, 6) }).collect();
+                for (ai, &a) in adj.iter().enumerate() {
+                    for &b in adj.iter().skip(ai + 1) {
+                        for pa in [Pc::P, Pc::B, Pc::R, Pc::N] {
+                            for pb in [Pc::P, Pc::B, Pc::R, Pc::N] {
+                                for helper in [Pc::B, Pc::N, Pc::R] {
+                                    for h in 0..64u8 {
+                                        i += 1;
+                                        if i % stride != 0 {
+                                            continue;
+                                        }
+                                        let wk = if f <= 3 { 7u8 } else { 0u8 };
+                                        let mut p = Position::empty();
+                                        p.turn = Col::W;
+                                        p.full = 1;
+                                        let mut ok = true;
+                                        let mut men = vec![(refchess::sq(f, 6), Col::W, Pc::P), (bk, Col::B, Pc::K), (wk, Col::W, Pc::K), (a, Col::B, pa), (b, Col::B, pb), (h, Col::W, helper)];
+                                        // a capture-promotion needs a victim on the promotion square
+                                        if to_f != f {
+                                            men.push((refchess::sq(to_f, 7), Col::B, Pc::R));
+                                        }
+                                        for (s, c, pc) in men {
+                                            if p.board[s as usize].is_some() || (pc == Pc::P && c == Col::B && (s / 8 == 7 || s / 8 == 0)) {
+                                                ok = false;
+                                                break;
+                                            }
+                                            p.board[s as usize] = Some((c, pc));
+                                        }
+                                        if ok {
+                                            raw.push(p);
+                                        }
+                                    }
+                                }
+                            }
+                        }
+                    }
+                }
+            }
+        }
+    }
+    raw.into_par_iter()
+        .filter(|p| {
+            if p.valid_root().is_err() {
+                return false;
+            }
+            let m = p.mating_moves();
+            m.iter().any(|x| x.promo == Some(Pc::N) && !m.contains(&Mv::new(x.from, x.to, Some(Pc::Q))))
+        })
+        .collect()
+}
+
 pub fn c12_positions(tier: Tier) -> Vec<Position> {
     use refchess::Pc;
     let mut v = vec![];
+    v.extend(knight_promotion_mate_family(tier.pick(4, 1)));
+    v.extend(minor_capture_mate_family(tier.pick(5, 1)));
+    v.extend(promotion_only_mate_family(tier.pick(3, 1)));
     v.extend(kqk_victim_family(tier.pick(16, 1)));
     v.extend(promo_mate_family());
     let stride = tier.pick(1usize, 1);
@@ -458,6 +817,9 @@ pub fn c12_positions(tier: Tier) -> Vec<Position> {
         "6k1/5ppp/8/8/8/8/r7/R5K1 w - - 0 1",
         "6k1/5ppp/8/8/8/2b5/8/3R2K1 w - - 0 1",
         "5rk1/5ppp/8/8/8/8/8/3Q1RK1 w - - 0 1",
+        // capture-mate into a bishops-only ending; knight under-promotion as the only mate
+        "kb6/8/1K6/3p4/8/1B6/8/8 w - - 0 1",
+        "7b/5Ppk/7p/8/8/1B6/8/K7 w - - 0 1",
     ] {
         v.push(Position::from_fen(f).unwrap());
     }
@@ -506,7 +868,7 @@ pub fn run_c12(args: &Args) -> i32 {
         json!({
             "evaluations": runs,
             "distinct_nontrivial": with_mate,
-            "rule": "all KQ-K, KR-K and KP(7th rank)-K positions with either side to move, every 16th (thorough: every) K+Q v K + black N/R position and all K+P(7th) v K + capturable piece beside the promotion square positions (mates that compete with captures, which the engine iterates first under a mask), every scenario root and 15 hand-built mates (several mating moves, under-promotion mate, en-passant mate, discovered mate, Black mating), each in both colours and with positional evaluation off and on; each is searched with the smallest k = 32*2^i that lets the first deepening pass complete. Non-trivial = (position, configuration) pairs that have a mate in one AND completed a pass; the rest exercise 'a mate-in-one score is reported only when the move mates'.",
+            "rule": "all KQ-K, KR-K and KP(7th rank)-K positions with either side to move, every 16th (thorough: every) K+Q v K + black N/R position and all K+P(7th) v K + capturable piece beside the promotion square positions (mates that compete with captures, which the engine iterates first under a mask), the capture-mates that leave only kings and minor pieces (black king in a corner region, blocker, white minor, victim; every 5th quick) the promotion-only mates (pawn on the 7th, two black men beside the black king; every 3rd quick) and the knight-under-promotion mates where the queen promotion to the same square does not mate (one white helper piece anywhere; every 4th quick) selected by the reference, every scenario root and 17 hand-built mates (several mating moves, under-promotion mate, en-passant mate, discovered mate, Black mating), each in both colours and with positional evaluation off and on; each is searched with the smallest k = 32*2^i that lets the first deepening pass complete. Non-trivial = (position, configuration) pairs that have a mate in one AND completed a pass; the rest exercise 'a mate-in-one score is reported only when the move mates'.",
             "positions": positions.len(),
             "searches_that_completed_a_pass": completed,
             "exhaustive": true,
@@ -631,6 +993,10 @@ pub fn replay(prop: &str, case: &Value) -> Vec<Divergence> {
         "C11" => {
             if case["kind"].as_str() == Some("plugin-search") {
                 return crate::plugin::replay_plugin_search(case);
+            }
+            if case["kind"].as_str() == Some("search-reuse") {
+                let a = Position::from_fen(case["first"].as_str().unwrap()).unwrap();
+                return reuse_case(&a, &rp, case["k"].as_u64().unwrap());
             }
             let board = parse_board(fen).unwrap();
             c11_case(&rp, &board, &rp.legal_moves(), case["k"].as_u64().unwrap(), case["positional"].as_bool().unwrap_or(false)).1
